@@ -308,6 +308,8 @@ def gen_identifiers():
               "x.null", "falsehood", "ink", "orb", "andy", "notary", "all_", "any1", "T", "Z", "P", "e1", "E5", "t10", "d1", "a1b2",
               "durationx", "geographyx", "ge0", "le_", "_1", "__", "a.b.c.d", "A.B"}
     names |= {"a" * 127, "a" * 128, "b" + "1" * 127, "n." + "c" * 126, "_" * 128}
+    # a keyword followed by a NON-ASCII letter is one identifier too (the look-aheads of the literal keywords are Unicode-aware)
+    names |= {k + c for k in ("null", "true", "false", "not", "in", "eq", "any", "NULL", "True") for c in ("\u00e9", "\u00f1o", "\u00df", "\u00c4BLE", ".\u00e9", "\u0131")}
     # letters whose case folding lands on a keyword letter (long s, Kelvin sign, dotless / dotted i): still identifiers
     names |= {"fal\u017fe", "FAL\u017fE", "Fal\u017fe", "\u017fub", "\u0131n", "d\u0131v", "\u0130n", "\u212a", "nu\u017fll", "x.fal\u017fe", "fal\u017fe.x", "\u017f"}
     # null/true/false/not are keywords wherever they stand; every other keyword only in its own syntactic position (an infix operator
